@@ -1,6 +1,7 @@
 import BSModel.Proofs.Render
 import BSModel.Proofs.Reparse
 import BSModel.Proofs.ReparseIdem
+import BSModel.Proofs.ReparseLaws
 import BSModel.Gen.Render
 import BSModel.Props.C09
 import BSModel.Proofs.RenderEnt
@@ -488,5 +489,50 @@ theorem reparse_roundtrip_registry (x late : Bool) (k : PStr) (hk : k = ofS "min
 /-- the written form really is read back: `a<b` under `<p>`, `1<2` raw under `<script>`, a value with both quotes -/
 example : emitRdL livePCfg (c09Reader false) minimalHtml none false [demo] = emitRL minimalHtml [demo] :=
   emitRdL_eq _ _ _ (minimal_reader_laws false _ _ _) _ none false rfl (by decide)
+
+/-! ## 10. "the same elements, attributes, text and special strings": laws of the normal form
+
+`normaliseL` is defined as what the parser-side machine absorbs; these theorems say what that is, for **every** forest
+(no `Representable` needed). -/
+
+/-- **Same elements**: the normal form has exactly the elements of the forest (under the name `prefix:name` a re-parse
+    reads), in the same nesting and order. -/
+theorem same_elements (p : PCfg) (f : Fmt) (ds : List Node) : skelL (normaliseL p f ds) = skelL ds :=
+  skel_normalise p f ds
+
+/-- **Same attributes**: for the attributes of a dict (distinct keys): the same keys, sorted; each value is the text it
+    was written as (`None` → `""`, a list joined with spaces), split on whitespace again if the attribute is
+    multi-valued for the tag. -/
+theorem same_attributes (p : PCfg) (f : Fmt) (nm : PStr) (a : List (PStr × AVal)) (hn : keysNodup (a.map (·.1)) = true) :
+    normAttrs p f nm a = (sortAttrs a).map (normVal p nm) :=
+  normAttrs_spec p f nm a hn
+
+example : keysNodup ([(ofS "id", AVal.none), (ofS "class", .list [ofS "a b", ofS "c"])].map (·.1)) = true := by decide
+
+/-- **Same text**: every character of the character data that is not ASCII whitespace survives, in document order,
+    across the whole forest — what the normalisation may change is whitespace only (whitespace-only runs collapse,
+    a newline appears after a doctype), and which runs are one string (adjacent runs merge: `txt_chunking`). -/
+theorem same_text (p : PCfg) (f : Fmt) (hp : contOK p = true ∧ p.asciiSpaces.contains 10 = true ∧ p.asciiSpaces.contains 32 = true)
+    (ds : List Node) : inkL p (normaliseL p f ds) = inkL p ds :=
+  ink_normalise p f hp.1 hp.2.1 hp.2.2 ds
+
+example : contOK livePCfg = true ∧ livePCfg.asciiSpaces.contains 10 = true ∧ livePCfg.asciiSpaces.contains 32 = true := by decide
+example : inkL livePCfg demo2 = ofS "abr" := by decide
+
+/-- **Same special strings**: class by class (as a re-parse classifies them: comments, CDATA sections, processing
+    instructions — `<?…?>` strings with their `?` —, doctypes), in document order, with their content; the content is
+    changed only if it is whitespace-only (`wsRule_cases`), by the whitespace rule of its context, once (`wsRule_idem`). -/
+theorem same_specials (p : PCfg) (f : Fmt) (hc : contOK p = true) (ds : List Node) :
+    specL (normaliseL p f ds) = specCtxL p (ctxOf p [rootFrame]) ds :=
+  spec_normalise p f hc ds
+
+example : specL (normaliseL livePCfg minimalHtml demo2) =
+    [(.doctype, ofS "html"), (.comment, ofS " "), (.pi, ofS "x y?"), (.pi, ofS "if IE?")] := by decide
+
+/-- the whitespace rule changes a string only if it is whitespace-only, and then into `"\n"` or `" "` -/
+theorem wsRule_only_whitespace (p : PCfg) (pres : Bool) (s : PStr) :
+    wsRule p pres s = s ∨ (s.all (fun c => p.asciiSpaces.contains c) = true ∧ (wsRule p pres s = [10] ∨ wsRule p pres s = [32])) :=
+  wsRule_cases p pres s
+
 
 end BS.Props.C05
